@@ -57,8 +57,20 @@ WR_STEP_ASSUME = ["block builder replaced by its abstract contract (estimate gro
                   "write(2) completes in full here (fragmentation: group c20_*)", "key length <= 4 bytes (buffers are the real ubuf code); value length free (never read by writer.c)",
                   "arbitrary initial state satisfying the writer invariant W => every history of earlier calls"]
 add("wr_add_step", ["C08", "C10", "C09", "C01", "C02", "C12", "C20"], ["tu/writer_step.c", "$REPO/mtbl/varint.c"], "h_writer_add_step",
-    unwind=12, strength="B: one mtbl_writer_add from an arbitrary writer state (all histories); key length <= 4", timeout=900,
+    unwind=12, strength="B: one mtbl_writer_add from an arbitrary writer state (all histories); key length <= 4", timeout=900, slice=3,
     functions=WR_STEP_FUNCS, assumptions=WR_STEP_ASSUME, replay="c08")
 add("wr_close_step", ["C10", "C09", "C01", "C12", "C18", "C20"], ["tu/writer_step.c", "$REPO/mtbl/varint.c"], "h_writer_close_step",
     unwind=12, strength="B: mtbl_writer_destroy/_mtbl_writer_finish from an arbitrary writer state (all histories); key length <= 4", timeout=900,
     functions=["mtbl_writer_destroy", "_mtbl_writer_finish"] + WR_STEP_FUNCS[1:], assumptions=WR_STEP_ASSUME, replay="c10")
+# ---------------------------------------------------------------- block builder steps + encoder/decoder inverse lemmas
+BB_ASSUME = ["arbitrary builder state satisfying the builder invariant (counter <= interval, not finished) => every history",
+             "sizes capped for the content-level check: key/value <= 4 bytes, <= 16 bytes already in the block, <= 3 restart points, no vector growth of the entry buffer (vector growth: group vec_*)",
+             "x86_64 little-endian model"]
+add("bb_add_step", ["C09", "C01", "C11"], ["tu/bb_step.c", "$REPO/mtbl/varint.c", "$REPO/mtbl/fixed.c"], "h_bb_add_step",
+    unwind=7, strength="B: one block_builder_add from an arbitrary builder state; key/value <= 4 bytes, block prefix <= 16 bytes", timeout=900, slice=6,
+    functions=["block_builder_add", "block_builder_current_size_estimate", "parse_next_key", "decode_entry", "mtbl_varint_encode32", "mtbl_varint_decode32", "ubuf_*"],
+    assumptions=BB_ASSUME)
+add("bb_finish_step", ["C09", "C01", "C11"], ["tu/bb_step.c", "$REPO/mtbl/varint.c", "$REPO/mtbl/fixed.c"], "h_bb_finish_step",
+    unwind=7, strength="B: block_builder_finish/reset + block_init from an arbitrary builder state; <= 16 entry bytes, <= 3 restart points (32-bit restart regime)", timeout=900,
+    functions=["block_builder_finish", "block_builder_reset", "block_builder_empty", "block_init", "block_iter_init", "num_restarts", "get_restart_point", "mtbl_fixed_encode32", "mtbl_fixed_decode32"],
+    assumptions=BB_ASSUME)
